@@ -91,8 +91,32 @@ class VecOp(Harness):
                                z3.Implies(z3.And(firsts[i], idx == BV(r)), cell_ident(Y[r], X[i], k))))
         return cl
 
+class VecOpTwice(VecOp):
+    """history: call, overwrite every element in place, call again - the second result must only depend on the new contents"""
+    opname = "vec_op_twice"
+    def __init__(self, method, kind, maxn):
+        VecOp.__init__(self, method, kind, maxn)
+        self.name = f"C11.{method}_twice.{kind}.n{maxn}"
+        self.bounds = dict(self.bounds, history="method call, in-place assignment of new elements, same method call again")
+    def build(self, ctx):
+        inp = VecOp.build(self, ctx)
+        n = len(inp["v"])
+        from .common import sym_cell, scalar_of
+        self_new = [sym_cell(self.kind, f"new{i}") for i in range(n)]
+        inp["old"] = inp["v"]
+        inp["new"] = [scalar_of(c, self.kind) for c in self_new]
+        return inp
+    def spec(self, inp, out):
+        from .common import as_cell
+        cells = [as_cell(x, self.kind) for x in inp["new"]]
+        inp2 = dict(inp); inp2["v"] = Arr(inp["v"].dtype, cells, "Vector")
+        return VecOp.spec(self, inp2, out)
+
 def harnesses(tier):
     hs = []
+    for m in ("sort", "rank", "unique"):
+        hs.append(VecOpTwice(m, "T", 2))
+    hs.append(VecOpTwice("sort", "f", 2))
     if tier == "quick":
         for k in ["f", "i", "T", "b", "D"]:
             for m in ("sort", "rank", "unique"):
